@@ -224,6 +224,17 @@ structure Cfg where
   /-- names of the variables flagged `_emit` -/
   flagged : List String
 
+/-- advance the clock to `gt'`, carry the quiet processes along, collect the updates that are
+due (`advance['time'] <= self.global_time and advance['update']`), clear them from the front and
+apply them in front order (`_send_updates` before `run_steps`) -/
+def applyBatch (s : St) (os : List (Pid × Outcome)) (gt' : Int) : St :=
+  let fs := os.map (fun po => (po.1, settle gt' po.2))
+  let due := fs.filterMap (dueUpd gt')
+  { s with gt := gt', fronts := fs.map (fun pf => (pf.1, clearDue gt' pf.2)),
+           store := due.foldl (fun acc pdu => applyUpd acc pdu.2.2) s.store,
+           log := s.log ++ (os.map (fun po => po.2.evs)).flatten ++ (os.map (settleEv gt')).flatten ++
+                  due.map (fun pdu => Ev.apply pdu.1 gt' pdu.2.1 pdu.2.2) }
+
 /-- one pass of the `while` loop of `run_for` -/
 def iter (c : Cfg) (endT : Int) (force : Bool) (s : St) : St :=
   let os := s.fronts.map (fun pf => (pf.1, poll c.beh s.gt endT force s.store pf.1 pf.2))
@@ -235,15 +246,7 @@ def iter (c : Cfg) (endT : Int) (force : Bool) (s : St) : St :=
                log := s.log ++ pollEvs ++ (os.map (settleEv gt')).flatten }
   | some d =>
       if s.gt + d ≤ endT then
-        let gt' := s.gt + d
-        let fs := os.map (fun po => (po.1, settle gt' po.2))
-        let due := fs.filterMap (dueUpd gt')
-        let store' := due.foldl (fun acc pdu => applyUpd acc pdu.2.2) s.store
-        let applyEvs := due.map (fun pdu => Ev.apply pdu.1 gt' pdu.2.1 pdu.2.2)
-        let s1 : St := { s with gt := gt', fronts := fs.map (fun pf => (pf.1, clearDue gt' pf.2)),
-                                store := store',
-                                log := s.log ++ pollEvs ++ (os.map (settleEv gt')).flatten ++ applyEvs }
-        emitAfter c.emitEvery c.emitStep c.flagged (runSteps c.sb s1)
+        emitAfter c.emitEvery c.emitStep c.flagged (runSteps c.sb (applyBatch s os (s.gt + d)))
       else
         { s with gt := endT, fronts := os.map (fun po => (po.1, settle endT po.2)),
                  log := s.log ++ pollEvs ++ (os.map (settleEv endT)).flatten }
@@ -278,12 +281,15 @@ def runCalls (c : Cfg) : List (Nat × Bool) → St → Option St
 def newFront (t : Int) : Front :=
   { time := t, pending := none, sticky := none, nTs := 0, nCond := 0, nInv := 0 }
 
+/-- the engine state before the initial step phase -/
+def init0 (t0 : Int) (pids : List Pid) (layers : List (List Sid)) (store : Store) : St :=
+  { gt := t0, fronts := pids.map (fun p => (p, newFront t0)), store := store,
+    layers := layers, stepCalls := [], emitTime := t0, log := [] }
+
 /-- `Engine.__init__`: fronts at the initial time, the initial step phase, the configuration
 record, the first history row -/
 def init (c : Cfg) (t0 : Int) (pids : List Pid) (layers : List (List Sid)) (store : Store) : St :=
-  let s0 : St := { gt := t0, fronts := pids.map (fun p => (p, newFront t0)), store := store,
-                   layers := layers, stepCalls := [], emitTime := t0, log := [] }
-  let s1 := runSteps c.sb s0
+  let s1 := runSteps c.sb (init0 t0 pids layers store)
   { s1 with log := s1.log ++ [Ev.config, Ev.emit s1.gt (emitRow c.flagged s1.store)] }
 
 end Viv.Sched
